@@ -465,6 +465,12 @@ func (it *Interp) callFn(name string, args []any) (any, *ErrM) {
 					if !strings.Contains(s, "parameter todo") {
 						e.Not = []string{"parameter todo"} // the given message replaces the default text, even an empty one
 					}
+					// further arguments are not part of the message
+					for _, more := range args[1:] {
+						if ms, ok := more.(string); ok && len(ms) > 3 && !strings.Contains(s, ms) {
+							e.Not = append(e.Not, ms)
+						}
+					}
 					return nil, e
 				}
 				it.Unknown = "todo message is not a string"
